@@ -285,3 +285,10 @@ package sender
 //@   requires[C16] [table-points-to-first-of-run] tableFirst(tagTable, targets) && len(targets) == head.ChecksumCount
 //@   loop[C16] 1: invariant [run-scanned-so-far] ok && 0 <= j && tagTable[tag] <= j && (forall q :: tagTable[tag] <= q && q < j && q < len(targets) ==> targets[q].tag == tag)
 //@   loop[C16] 1: exit [whole-run-compared] j >= head.ChecksumCount || targets[j].tag != tag
+
+// ---------------------------------------------------------------- C01: both ends number the files alike
+// Files are requested by index into the list sorted by wire name; the
+// receiver sorts its copy the same way (receiver.sortFileList, bytewise <).
+//@ spec func sortedByWpath(l: []sender.file): bool = forall i, j :: 0 <= i && i < j && j < len(l) ==> !strlt(l[j].Wpath, l[i].Wpath)
+//@ func (*sender.Transfer).SendFiles
+//@   requires[C01] [file-list-sorted-by-wire-name] sortedByWpath(fileList.Files)
